@@ -7,7 +7,7 @@ from ..runner import Part
 
 PROPERTY = 'C13'
 LEVEL = 'model_checking'
-RULE = ('every sequence of <=k symbols over {connect-ok, connect-fail x {no keys, non-token challenge, silent device, transport connect error}, close, shell, exec_out, '
+RULE = ('every sequence of <=k symbols over {connect-ok, connect-fail x {no keys, non-token challenge, silent device, transport connect error, device that answers the public key with another challenge}, close, shell, exec_out, '
         'root, reboot, streaming_shell, list, stat, pull->path, pull->BytesIO, push, and list/stat/pull/push with an empty path} on one object, both twins, executed on '
         'the real device class; reference = the availability machine (True after connect-ok, False after close / any connect attempt that fails); oracle: operation '
         'while unavailable raises AdbConnectionError, empty path raises DevicePathInvalidError, in both cases zero bytes written to the transport and no local file '
@@ -21,9 +21,10 @@ CONNECTS = {
     'fail-nontoken': {'_sim': {'auth': {'first': 'nontoken', 'sig': 'token', 'pub': 'never'}}, '_keys': [0]},
     'fail-silent': {'_sim': {'auth': {'first': 'silent'}}, 'transport_timeout_s': 0.5, 'read_timeout_s': 0.5},
     'fail-transport': {'_sim': {'connect_error': 'refused'}},
+    'fail-rechallenge': {'_sim': {'auth': {'first': 'token', 'sig': 'token', 'pub': 'token'}}, '_keys': [0], 'transport_timeout_s': 0.5, 'read_timeout_s': 0.5, 'auth_timeout_s': 1.0},
 }
 FAIL_EXC = {'fail-nokeys': 'DeviceAuthError', 'fail-nontoken': 'InvalidResponseError', 'fail-silent': ('AdbTimeoutError', 'TcpTimeoutException'),
-            'fail-transport': 'ConnectionRefusedError'}
+            'fail-transport': 'ConnectionRefusedError', 'fail-rechallenge': ('AdbTimeoutError', 'TcpTimeoutException')}
 OPS = ['shell', 'exec_out', 'root', 'reboot', 'streaming_shell', 'list', 'stat', 'pull', 'pull-path', 'push']
 EMPTY = ['list-empty', 'stat-empty', 'pull-empty', 'push-empty']
 ALPHABET = list(CONNECTS) + ['close'] + OPS + EMPTY
